@@ -271,11 +271,17 @@ func (x *Session) netDeliver(it recvItem) (bool, *Hang) {
 	}()
 	t := time.NewTimer(Watchdog)
 	defer t.Stop()
-	select {
-	case err := <-errc:
-		return err == nil, nil
-	case <-t.C:
-		return false, x.hang("client Send over the real transport")
+	ext := 0
+	for {
+		select {
+		case err := <-errc:
+			return err == nil, nil
+		case <-t.C:
+			if h := x.hangOrBusy("client Send over the real transport", &ext); h != nil {
+				return false, h
+			}
+			t.Reset(Watchdog)
+		}
 	}
 }
 
